@@ -1082,6 +1082,11 @@ func (t *tree) parseListLiteral(first item, expr ast.Node) ast.Node {
 	var items []ast.Node
 	items = append(items, expr)
 	for {
+		// (a comma may follow the last item)
+		if t.next().typ == itemRightBracket {
+			return &ast.ListLiteralNode{first.pos, items}
+		}
+		t.backup()
 		items = append(items, t.parseExpr(0))
 		next := t.next()
 		if next.typ == itemRightBracket {
@@ -1117,6 +1122,11 @@ func (t *tree) parseMapLiteral(first item, expr ast.Node) ast.Node {
 		if next.typ != itemComma {
 			t.unexpected(next, "map literal")
 		}
+		// (a comma may follow the last item)
+		if t.next().typ == itemRightBracket {
+			return &ast.MapLiteralNode{first.pos, items}
+		}
+		t.backup()
 		tok := t.expect(itemString, "map literal")
 		var err error
 		key, err = unquoteString(tok.val)
